@@ -6,6 +6,7 @@ import (
 	"maps"
 	"net/http"
 	"os"
+	"path/filepath"
 	"strconv"
 	"strings"
 
@@ -560,20 +561,44 @@ func (r *Runner) Format(rslv resolver.Resolver) error {
 	}
 
 	formatted := formatter.New(r.config.Format).Format(vcl)
-	var w io.Writer
-	if r.config.Format.Overwrite {
-		writeln(cyan, "Formatted %s.", main.Name)
-		fp, err := os.OpenFile(main.Name, os.O_TRUNC|os.O_WRONLY, 0o644)
-		if err != nil {
-			return errors.WithStack(err)
-		}
-		defer fp.Close()
-		w = fp
-	} else {
-		w = os.Stdout
+	if formatted == nil {
+		// The formatter only handles root declarations, e.g. statement-only snippets are unsupported
+		return fmt.Errorf("%s: could not format, only VCL declarations are supported", main.Name)
 	}
-	if _, err := io.Copy(w, formatted); err != nil {
+	if !r.config.Format.Overwrite {
+		_, err := io.Copy(os.Stdout, formatted)
 		return err
 	}
+	if err := overwriteFile(main.Name, formatted); err != nil {
+		return errors.WithStack(err)
+	}
+	writeln(cyan, "Formatted %s.", main.Name)
 	return nil
+}
+
+// overwriteFile replaces the file content atomically:
+// write the content to a temporary file in the same directory and then rename it to the target
+// so that the target file is never truncated or partially written when any step fails.
+func overwriteFile(name string, content io.Reader) error {
+	mode := os.FileMode(0o644)
+	if stat, err := os.Stat(name); err == nil {
+		mode = stat.Mode().Perm()
+	}
+	tmp, err := os.CreateTemp(filepath.Dir(name), "."+filepath.Base(name)+".*.tmp")
+	if err != nil {
+		return err
+	}
+	defer os.Remove(tmp.Name()) // nolint:errcheck
+	if _, err := io.Copy(tmp, content); err != nil {
+		tmp.Close() // nolint:errcheck
+		return err
+	}
+	if err := tmp.Chmod(mode); err != nil {
+		tmp.Close() // nolint:errcheck
+		return err
+	}
+	if err := tmp.Close(); err != nil {
+		return err
+	}
+	return os.Rename(tmp.Name(), name)
 }
